@@ -251,6 +251,11 @@ let run_dec (a : string array) : string * string =
   inflate_modelled := 0; inflate_skipped := 0; inflate_gaps := 0; inflate_gap_log := [];
   (canon, diag)
 
+let run_decseq (a : string array) : string * string =
+  let n = Array.length a / 2 in
+  let rs = List.init n (fun i -> run_dec [| a.(2 * i); a.(2 * i + 1) |]) in
+  (String.concat "|" (List.map fst rs), match List.rev rs with (_, d) :: _ -> d | [] -> "")
+
 (* model of flate2 against flate2 itself, one stream decoder, one body (tools/fuzz_inflate.py) *)
 let run_inf (a : string array) : string * string =
   let body = unhex a.(1) in
@@ -343,7 +348,14 @@ let run_genresp (a : string array) : string * string =
 
 let run_rtreq (a : string array) : string * string =
   let cfg = cfg_of a.(0) a.(1) a.(2) in
-  match req_parse uri_parse cfg req_init (unhex a.(3)) with
+  let first = match arg_opt a 5 with
+    | Some spec when spec <> "-" ->
+      (match snd (feed_trace (req_parse uri_parse cfg) req_init [] (deliveries spec) O) with
+       | Done (st, _, _) -> (st, Complete O)
+       | NeedMore (st, _, _) -> (st, Incomplete O)
+       | Rejected e -> (req_init, Reject e))
+    | _ -> req_parse uri_parse cfg req_init (unhex a.(3)) in
+  match first with
   | (st, Complete _) ->
     (match gen_of_state cfg st with
      | Some g -> (Printf.sprintf "first=%s;gen=%s;back=%s" (req_fields st) (hex g) (parse_back_req cfg g (arg_opt a 4)), "")
@@ -352,7 +364,14 @@ let run_rtreq (a : string array) : string * string =
   | (_, Reject e) -> ("notcomplete:R:" ^ err_cat e, "")
 
 let run_rtresp (a : string array) : string * string =
-  match resp_parse resp_init (unhex a.(0)) with
+  let first = match arg_opt a 2 with
+    | Some spec when spec <> "-" ->
+      (match snd (feed_trace resp_parse resp_init [] (deliveries spec) O) with
+       | Done (st, _, _) -> (st, Complete O)
+       | NeedMore (st, _, _) -> (st, Incomplete O)
+       | Rejected e -> (resp_init, Reject e))
+    | _ -> resp_parse resp_init (unhex a.(0)) in
+  match first with
   | (st, Complete _) ->
     let g = resp_generate st.s_code st.s_reason st.s_headers st.s_body in
     (Printf.sprintf "first=%s;gen=%s;back=%s" (resp_fields st) (hex g) (parse_back_resp g (arg_opt a 1)), "")
@@ -432,6 +451,7 @@ let run_case kind (a : string array) =
   | "pipereq" -> run_pipereq a | "piperesp" -> run_piperesp a
   | "reuseresp" -> run_reuse_resp a | "reusereq" -> run_reuse_req a
   | "inf" -> run_inf a
+  | "decseq" -> run_decseq a
   | "defaults" -> run_defaults ()
   | _ -> ("unknown-kind", "")
 
